@@ -73,6 +73,9 @@ def obligations(ctx, tier):
                             return ("errv",)
                         return ("okv", PI(ty, v))
                     out += core.g_row(K, PROP, fid, arith.reps(A, "T", ex2))
+            # ---- TryFrom<bnum> for every primitive: whatever is decided before the digit loop (the single-digit fast path
+            #      when the digit is wider than the target) must be Ok exactly for representable values
+            out += to_prim_rows(K, A)
             out.append(core.f_row(K, PROP, tr(A, "core::convert::From", ["bool"], "from"), call(tr(A, "cast::CastFrom", ["bool"], "cast_from"), P(0))))
             if not sg:
                 out.append(core.f_row(K, PROP, tr(A, "core::convert::From", ["char"], "from"), call(tr(A, "cast::CastFrom", ["char"], "cast_from"), P(0))))
@@ -139,4 +142,33 @@ def btryfrom_rows(K):
                 out += core.g_row(K, PROP, fid, reps)
             finally:
                 core.WORLDS_FOR = old
+    return out
+
+
+PB = {"u8": 8, "u16": 16, "u32": 32, "u64": 64, "u128": 128, "usize": 64, "i8": 8, "i16": 16, "i32": 32, "i64": 64, "i128": 128, "isize": 64}
+
+
+def to_prim_rows(K, A):
+    out = []
+    T = T_(A)
+    for ty in PRIM_INTS:
+        fid = "<%s as core::convert::TryFrom<%s>>::try_from" % (ty, T)
+        if K.F.lookup(fid) is None:
+            continue
+        b = PB[ty]
+        lo, hi = (-(1 << (b - 1)), (1 << (b - 1)) - 1) if ty[0] == "i" else (0, (1 << b) - 1)
+        cands = [0, 1, 5, hi, hi - 1, hi + 1, (hi + 1) // 2, (hi + 1) // 2 - 1, 2 * (hi + 1) - 1, 200, 255, 256, 1 << 40]
+        if is_signed(A):
+            cands += [-1, -5, lo, lo + 1, lo - 1, -(1 << 40), -200]
+
+        def ex(W, env, lo=lo, hi=hi, ty=ty):
+            v = env[0].v
+            return ("okv", PI(ty, v)) if lo <= v <= hi else ("errv",)
+        reps = []
+        for v in cands:
+            def env_fn(W, v=v):
+                alo, ahi = arith.rng(W, A)
+                return {0: W.wrap(A, min(max(v, alo), ahi))}
+            reps.append(("v%s" % str(v).replace("-", "n"), env_fn, ex))
+        out += core.g_row(K, PROP, fid, reps)
     return out
